@@ -14,7 +14,7 @@
                    progress finds the handle kind it needs in its register;
     `AbandonInsideStep w tid`  the step about to be taken is `dfStore` / `poRelease` on a slot that is
                    `Sending`, or `RxBusy` while an RX thread is inside — the window C06 owns.
-  Proofs: Lemmas/MicroInv*.lean (one lemma per program counter).
+  Proofs: Lemmas/MicroInv*.lean, MicroOwned.lean, MicroBufFrame.lean (one lemma per program counter).
 
   Hypotheses, and why:
     * `0 < n` (a storage without slots cannot run `alloc_frame`: `% 0`);
@@ -22,13 +22,19 @@
       the code — `abandon_inside_tx_counterexample`, `abandon_inside_rx_counterexample`;
     * nothing about programs: wrong-kind operations are `bad-op` no-ops (proved: `PcOk`), and `al r` /
       `tn r` into an OCCUPIED register (where `putH` replaces, i.e. forgets, the old handle) is
-      handled — the invariant bounds claims from above, and forgetting a claim only lowers counts.
-      No `FreshRegs` hypothesis is needed for exclusion. (It would be needed only for the converse
-      "every non-free slot has an owner", which is C03's business and is not claimed here.)
+      HANDLED — the invariant bounds claims from above, and forgetting a claim only lowers counts.
+      No `FreshRegs` hypothesis is needed for exclusion. Only the converse direction ("every non-free
+      slot has an owner", hence EXACTLY one: `micro_exactly_one_owner`) needs it, as the per-step
+      hypothesis `¬ ClobberStep` (`FreshSafeSched`); `clobber_loses_owner_counterexample` shows why.
+  Concrete witnesses cannot be run from a program's first operation by `decide` (`Micro.begin` parses
+  strings, which the kernel cannot evaluate): they start from literal mid-execution worlds that are
+  proved to satisfy `MInv` and are checked (`#guard`, Lemmas/MicroInvExamples.lean) to be what the
+  executable model reaches from the fresh world with the stated programs and schedule.
 -/
 import EcModel.Lemmas.MicroInvMain
 import EcModel.Lemmas.MicroInvExamples
 import EcModel.Lemmas.MicroBufFrame
+import EcModel.Lemmas.MicroOwned
 
 namespace Ec.C02Micro
 open Ec Ec.Micro
@@ -161,6 +167,36 @@ theorem micro_access_is_exclusive (n data : Nat) (w : MWorld) (hn : 0 < n) (h : 
     (i j : Nat) (a b : Thread) (ha : w.threads[i]? = some a) (hb : w.threads[j]? = some b) (k : Nat)
     (hacc : bufAccess a = some k) (hin : Inside b k) : i = j :=
   (MInv_reachable hn h).mutual_exclusion ha hb ((MInv_reachable hn h).buffer_access_by_insider ha hacc) hin
+
+/-! ### exactly one owner (needs fresh registers) -/
+
+/-- Reachable by a schedule that, in addition to staying outside the window, stores every new handle
+    (`al r`, `tn r`) into a FREE register — what the real harness' registers guarantee by dropping the
+    old handle first; in the model `putH` would silently forget it. -/
+def FreshReachable (n data : Nat) (w : MWorld) : Prop :=
+  ∃ fi pi progs sched, FreshSafeSched (initWorld n data fi pi progs) sched ∧
+    w = runSched (initWorld n data fi pi progs) sched
+
+/-- **micro_exactly_one_owner.** In every such world, every non-free slot has exactly one owner
+    thread (creator, awaiting future, or reader): some thread owns it, and any owner is that thread. -/
+theorem micro_exactly_one_owner (n data : Nat) (w : MWorld) (hn : 0 < n) (h : FreshReachable n data w)
+    (k : Nat) (hne : (w.sys.slot k).st ≠ .none) :
+    ∃ (i : Nat) (t : Thread), w.threads[i]? = some t ∧ Owner t k ∧
+      ∀ (j : Nat) (t' : Thread), w.threads[j]? = some t' → Owner t' k → j = i := by
+  obtain ⟨fi, pi, progs, sched, hs, rfl⟩ := h
+  obtain ⟨hI, hO⟩ := MOwned.run (MInv_init n data fi pi progs hn) (MOwned_init n data fi pi progs) sched hs
+  exact exactly_one_owner hI hO hne
+
+/-- Why the extra hypothesis: a second `al,0` overwrites the `CreatedFrame` in register 0; slot 0 stays
+    `Created` with no owner left (a modelling artefact: the real harness drops the old handle, which
+    releases the slot). Mutual exclusion is unaffected. -/
+theorem clobber_loses_owner_counterexample :
+    ClobberStep wClobber 0 ∧
+    (wClobber.threads.map (fun t => ownerCount t 0)).sum = 1 ∧
+    (runSched wClobber [.run 0]).sys.slots.map (·.st) = [.created, .created] ∧
+    ((runSched wClobber [.run 0]).threads.map (fun t => ownerCount t 0)).sum = 0 ∧
+    ((runSched wClobber [.run 0]).threads.map (fun t => insideCount t 0)).sum = 0 := by
+  refine ⟨⟨_, 0, rfl, Or.inl ⟨1, rfl⟩, by decide⟩, by decide, by decide, by decide, by decide⟩
 
 /-! ### non-vacuity -/
 
